@@ -231,6 +231,11 @@ impl Report {
             exit = 1;
         }
         let mut replay_paths = vec![];
+        if !unknown.is_empty() {
+            // the complete list of signatures (replay files are written for the first 25 only)
+            let all: Vec<String> = unknown.iter().map(|(sig, (n, v))| format!("{n}\t{sig}\t{}", truncate(&v.detail, 400))).collect();
+            let _ = std::fs::write(dir.join("ALL_SIGNATURES.tsv"), all.join("\n") + "\n");
+        }
         for (i, (sig, (n, v))) in unknown.iter().enumerate() {
             if i >= 25 {
                 println!("... {} more violation signatures not written", unknown.len() - 25);
